@@ -819,7 +819,7 @@ func (fr *Frame) doAppend(st *State, c *ssa.CallCommon, args []Val) Val {
 		for k := 0; k < n; k++ {
 			ek := sel(tRow, app("ix", app("sl_off", t.T), fmt.Sprint(k)))
 			inPlace = sto(inPlace, fmt.Sprintf("(ix (sl_off %s) (+ (sl_len %s) %d))", s.T, s.T, k), ek)
-			fresh = sto(fresh, fmt.Sprintf("(ix 0 (+ (sl_len %s) %d))", s.T, k), ek)
+			fresh = sto(fresh, fmt.Sprintf("(+ (sl_len %s) %d)", s.T, k), ek)
 		}
 		u.assume(eq(newRow, ite(fits, inPlace, fresh)))
 		u.heapStoreAt(st, h, resBase, newRow)
